@@ -11,6 +11,7 @@ import (
 	"fmt"
 	"go/ast"
 	"go/parser"
+	"go/printer"
 	"go/token"
 	"os"
 	"path/filepath"
@@ -73,12 +74,19 @@ type spec struct {
 	CapVars  []string     // "v=c": cap(v) of the slice variable v is the int variable c; `v = append(v, ..)` updates c
 	Asserts  []string     // "name=Opaque:GoType": the comma-ok type assertion `p, ok := v.(GoType)` on a value of the opaque type is the abstract function name : Opaque → Option T
 	LogCalls []string     // expression statements whose text starts with one of these prefixes are logging call chains: EXPLICITLY not translated (no result is used)
+	// Bind: "canonical=name". The names a spec uses for LOCAL variables of the Go function (fragment parameters, results,
+	// the text of First / Last / Abstract, CapVars …) are attached to the variables by POSITION, not by how the working
+	// tree spells them: before anything else the variable whose canonical name (astnorm_gen.go: v<k> = k-th declaration of
+	// the function, a<k> = k-th declaration inside a function literal; `go2lean -canon file.go:Func` prints a function
+	// that way) is `canonical` is renamed to `name` throughout the function. A maintainer's renaming of such a local
+	// therefore yields the identical Lean text. (Where the tree already uses `name` this is a no-op.)
+	Bind []string
 }
 
 // a fragment: the consecutive statements of one block from the one whose text starts with First to
 // the one whose text starts with Last; the variables it reads become parameters, Results are returned
 type fragSpec struct {
-	First, Last string
+	First, Last string   // several accepted spellings of the same statement are separated by `|` (e.g. "x := |var x T")
 	Params      []string // "name type" in Go syntax
 	Results     []string // names of parameters / variables returned, in order
 	EarlyReturn string   // text of the return statements inside the fragment that mean "the fragment ends here"
@@ -155,28 +163,28 @@ var specs = []spec{
 	{File: "distance/puredist.go", Func: "squaredEuclideanDistancePureGo", Module: "Distance", Ext: true, FloatSym: true},
 	{File: "distance/puredist.go", Func: "dotProductPureGo", Module: "Distance", Ext: true, FloatSym: true},
 	// the hybrid score of the three leaf searches and the weight default (nil -> 1)
-	{File: "shard/index/flat/flat.go", Func: "Search", Recv: "IndexFlat", Module: "Hybrid", Ext: true, FloatSym: true, Name: "flat_weight",
+	{File: "shard/index/flat/flat.go", Func: "Search", Recv: "IndexFlat", Module: "Hybrid", Ext: true, FloatSym: true, Name: "flat_weight", Bind: flatSearchBind,
 		Structs: []structSpec{{File: "models/search.go", Name: "SearchVectorFlatOptions", Only: []string{"Weight"}}},
-		Frag: &fragSpec{First: "var weight float32", Last: "if options.Weight != nil {", Params: []string{"options models.SearchVectorFlatOptions"},
+		Frag: &fragSpec{First: "var weight float32|weight := ", Last: "if options.Weight != nil {", Params: []string{"options models.SearchVectorFlatOptions"},
 			Locals: []string{"weight float32"}, Results: []string{"weight"}}},
-	{File: "shard/index/flat/flat.go", Func: "Search", Recv: "IndexFlat", Module: "Hybrid", Ext: true, FloatSym: true, Name: "flat_hybrid",
+	{File: "shard/index/flat/flat.go", Func: "Search", Recv: "IndexFlat", Module: "Hybrid", Ext: true, FloatSym: true, Name: "flat_hybrid", Bind: flatSearchBind,
 		Frag: &fragSpec{Field: "HybridScore", FieldType: "float32", Params: []string{"weight float32", "dist float32"}}},
-	{File: "shard/index/vamana/vamana.go", Func: "Search", Recv: "IndexVamana", Module: "Hybrid", Ext: true, FloatSym: true, Name: "vamana_weight",
+	{File: "shard/index/vamana/vamana.go", Func: "Search", Recv: "IndexVamana", Module: "Hybrid", Ext: true, FloatSym: true, Name: "vamana_weight", Bind: vamanaSearchBind,
 		Structs: []structSpec{{File: "models/search.go", Name: "SearchVectorVamanaOptions", Only: []string{"Weight"}}},
-		Frag: &fragSpec{First: "weight := ", Last: "if query.Weight != nil {", Params: []string{"query models.SearchVectorVamanaOptions"},
+		Frag: &fragSpec{First: "weight := |var weight float32", Last: "if query.Weight != nil {", Params: []string{"query models.SearchVectorVamanaOptions"},
 			Locals: []string{"weight float32"}, Results: []string{"weight"}}},
-	{File: "shard/index/vamana/vamana.go", Func: "Search", Recv: "IndexVamana", Module: "Hybrid", Ext: true, FloatSym: true, Name: "vamana_hybrid",
+	{File: "shard/index/vamana/vamana.go", Func: "Search", Recv: "IndexVamana", Module: "Hybrid", Ext: true, FloatSym: true, Name: "vamana_hybrid", Bind: vamanaSearchBind,
 		Structs: []structSpec{{File: "shard/index/vamana/distset.go", Name: "DistSetElem", Only: []string{"Distance"}}},
 		Frag:    &fragSpec{Field: "HybridScore", FieldType: "float32", Params: []string{"elem DistSetElem", "weight float32"}}},
-	{File: "shard/index/text/text.go", Func: "Search", Recv: "indexText", Module: "Hybrid", Ext: true, FloatSym: true, Name: "text_weight",
+	{File: "shard/index/text/text.go", Func: "Search", Recv: "indexText", Module: "Hybrid", Ext: true, FloatSym: true, Name: "text_weight", Bind: textSearchBind,
 		Structs: []structSpec{{File: "models/search.go", Name: "SearchTextOptions", Only: []string{"Weight"}}},
-		Frag: &fragSpec{First: "weight := ", Last: "if options.Weight != nil {", Params: []string{"options models.SearchTextOptions"},
+		Frag: &fragSpec{First: "weight := |var weight float32", Last: "if options.Weight != nil {", Params: []string{"options models.SearchTextOptions"},
 			Locals: []string{"weight float32"}, Results: []string{"weight"}}},
-	{File: "shard/index/text/text.go", Func: "Search", Recv: "indexText", Module: "Hybrid", Ext: true, FloatSym: true, Name: "text_hybrid",
+	{File: "shard/index/text/text.go", Func: "Search", Recv: "indexText", Module: "Hybrid", Ext: true, FloatSym: true, Name: "text_hybrid", Bind: textSearchBind,
 		Frag: &fragSpec{Field: "HybridScore", FieldType: "float32", Params: []string{"score float32", "weight float32"}}},
 	// the tf-idf score of one document: start value, the statements of the loop over the query terms (the loop itself ranges
 	// over a Go map: its order is not defined, the theorems quantify over it)
-	textScoreLocal("Search_score0", &fragSpec{First: "score := ", Last: "score := ", Locals: []string{"score float32"}, Results: []string{"score"}}),
+	textScoreLocal("Search_score0", &fragSpec{First: "score := |var score float32", Last: "score := |var score float32", Locals: []string{"score float32"}, Results: []string{"score"}}),
 	textScoreLocal("Search_tf", &fragSpec{First: "tf := ", Last: "tf := ", Params: []string{"freq int", "docItem docCacheItem"},
 		Locals: []string{"tf float32"}, Results: []string{"tf"}}),
 	textScore("Search_idf", &fragSpec{First: "idf := ", Last: "idf := ", Params: []string{"index *indexText", "termSetItem *setCacheItem"},
@@ -249,13 +257,23 @@ func distSym(fn string, usesDot bool) spec {
 
 // fragments of text.indexText.Search that touch neither the index nor a term's posting set
 func textScoreLocal(name string, fr *fragSpec) spec {
-	return spec{File: "shard/index/text/text.go", Func: "Search", Recv: "indexText", Module: "TextScore", Ext: true, FloatSym: true, Name: name,
+	return spec{File: "shard/index/text/text.go", Func: "Search", Recv: "indexText", Module: "TextScore", Ext: true, FloatSym: true, Name: name, Bind: textSearchBind,
 		Structs: []structSpec{{File: "shard/index/text/text.go", Name: "Term"}, {File: "shard/index/text/text.go", Name: "docCacheItem"}}, Frag: fr}
 }
 
+// spec.Bind tables: the names the fragment specs use for the local variables of these functions, by canonical position
+// (`go2lean -canon <file>:<Func>` prints the function under canonical names)
+var flatSearchBind = []string{"v1=inf", "v3=options", "v4=filter", "v5=distFn", "v6=weight", "v8=res", "a1=point", "a2=dist", "a3=sr", "a4=i"}
+var vamanaSearchBind = []string{"v1=v", "v3=query", "v4=filter", "v6=searchSet", "v8=results", "v9=resultSet", "v10=weight", "v11=elem", "v12=sr"}
+var textSearchBind = []string{"v1=index", "v2=options", "v3=filter", "v13=weight", "v16=docId", "v17=docItem", "v19=score", "v20=term", "v21=freq",
+	"v22=termItem", "v23=ok", "v24=tf", "v25=termSetItem", "v26=idf", "v27=sr"}
+var invertedSearchBind = []string{"v1=inv", "v2=query", "v3=endQuery", "v4=operator", "v5=queryKey", "v8=start", "v9=end", "v10=inclusive"}
+var quotaBind = []string{"v1=c", "v2=col", "v3=points", "v4=shards", "v6=totalPoints", "v7=shard"}
+var pagingBind = []string{"v1=s", "v2=searchRequest", "v3=finalResults", "v21=start", "v22=end"}
+
 // fragments of text.indexText.Search: the roaring bitmap of a term is opaque (only its cardinality is read)
 func textScore(name string, fr *fragSpec) spec {
-	return spec{File: "shard/index/text/text.go", Func: "Search", Recv: "indexText", Module: "TextScore", Ext: true, FloatSym: true, Name: name,
+	return spec{File: "shard/index/text/text.go", Func: "Search", Recv: "indexText", Module: "TextScore", Ext: true, FloatSym: true, Name: name, Bind: textSearchBind,
 		Opaque: []string{"*roaring64.Bitmap=Bitmap"}, Methods: []string{"Bitmap.GetCardinality=func() uint64"},
 		Structs: []structSpec{{File: "shard/index/text/text.go", Name: "Term"}, {File: "shard/index/text/text.go", Name: "docCacheItem"},
 			{File: "shard/index/text/text.go", Name: "indexText", Only: []string{"numDocs"}}, {File: "shard/index/text/text.go", Name: "setCacheItem", Only: []string{"set"}}},
@@ -264,7 +282,7 @@ func textScore(name string, fr *fragSpec) spec {
 
 // the body of the ForEach callback of flat.IndexFlat.Search after the filter test: the bounded insertion of
 // one point into `res` (cap(res) is the variable res_cap; HybridScore, float arithmetic, is not modelled)
-var flatStepSpec = spec{File: "shard/index/flat/flat.go", Func: "Search", Recv: "IndexFlat", Module: "FlatSearch", Ext: true, Name: "Search_step",
+var flatStepSpec = spec{File: "shard/index/flat/flat.go", Func: "Search", Recv: "IndexFlat", Module: "FlatSearch", Ext: true, Name: "Search_step", Bind: flatSearchBind,
 	FloatAbs: "D", FloatLE: true, CapVars: []string{"res=res_cap"}, Prims: []string{"growCap"},
 	Opaque:  []string{"vectorstore.VectorStorePoint=VPoint", "VectorStorePoint=VPoint"},
 	Methods: []string{"VPoint.Id=func() uint64"},
@@ -277,7 +295,7 @@ var flatStepSpec = spec{File: "shard/index/flat/flat.go", Func: "Search", Recv: 
 // one arm of the operator switch of inverted.IndexInverted[T].Search: what it does to start / end / inclusive
 // (the generic value type T is opaque; toByteSortable and the %v text of a T are abstract)
 func invArm(name, label string) spec {
-	return spec{File: "shard/index/inverted/inverted.go", Func: "Search", Recv: "IndexInverted", Module: "InvertedSearch", Ext: true, Name: "Search_" + name,
+	return spec{File: "shard/index/inverted/inverted.go", Func: "Search", Recv: "IndexInverted", Module: "InvertedSearch", Ext: true, Name: "Search_" + name, Bind: invertedSearchBind,
 		Opaque: []string{"T=T"}, Prims: []string{"toByteSortable=func(v T) ([]byte, error)", "fmt_T=func(v T) string"},
 		Frag: &fragSpec{Case: label, ErrLast: true,
 			Params:  []string{"queryKey []byte", "endQuery T", "start []byte", "end []byte", "inclusive bool"},
@@ -298,7 +316,7 @@ func distSetSpec(fn string) spec {
 
 // the quota test at the head of ClusterNode.InsertPoints: `totalPoints` over the shard infos, then the comparison
 // with the plan's per-collection maximum; the error return is the fragment's failure
-var quotaInsertSpec = spec{File: "cluster/actions.go", Func: "InsertPoints", Recv: "ClusterNode", Module: "Quota", Ext: true, Name: "InsertPoints_quota",
+var quotaInsertSpec = spec{File: "cluster/actions.go", Func: "InsertPoints", Recv: "ClusterNode", Module: "Quota", Ext: true, Name: "InsertPoints_quota", Bind: quotaBind,
 	Structs: []structSpec{{File: "cluster/actions.go", Name: "shardInfo"}, {File: "models/point.go", Name: "Point"},
 		{File: "models/userplan.go", Name: "UserPlan", Only: []string{"MaxCollectionPointCount"}},
 		{File: "models/collection.go", Name: "Collection", Only: []string{"UserPlan"}}},
@@ -307,7 +325,7 @@ var quotaInsertSpec = spec{File: "cluster/actions.go", Func: "InsertPoints", Rec
 		Params: []string{"shards []shardInfo", "points []models.Point", "col models.Collection"}, Results: []string{}}}
 
 // the paging at the end of Shard.SearchPoints
-var pagingSpec = spec{File: "shard/shard.go", Func: "SearchPoints", Recv: "Shard", Module: "Paging", Ext: true, WrapInt: true, Name: "SearchPoints_paging",
+var pagingSpec = spec{File: "shard/shard.go", Func: "SearchPoints", Recv: "Shard", Module: "Paging", Ext: true, WrapInt: true, Name: "SearchPoints_paging", Bind: pagingBind,
 	Structs: []structSpec{{File: "models/search.go", Name: "SearchRequest", Only: []string{"Offset", "Limit"}}, {File: "models/search.go", Name: "SearchResult", Only: []string{"NodeId"}}},
 	Frag: &fragSpec{First: "if searchRequest.Limit == 0 {", Last: "finalResults = finalResults[start:end]",
 		Params: []string{"searchRequest models.SearchRequest", "finalResults []models.SearchResult"}, Results: []string{"finalResults"}}}
@@ -1367,6 +1385,251 @@ type genFunc struct {
 	text string
 }
 
+// prepareFile: locals get their canonical names (for spec.Bind); the tree itself is left as written
+func prepareFile(fset *token.FileSet, f *ast.File) {
+	// a constant declared in the same file by a numeric literal (`const maxLen = 24`) is read as that literal, unless a
+	// spec names it in Consts (those are translated as named Lean definitions); nothing else is rewritten
+	for _, sp := range specs {
+		for _, c := range sp.Consts {
+			astnormKeepConst[c.Name] = true
+		}
+	}
+	// … and: `x = x op e` is read as `x op= e`; the operands of a chain of && (of ||) whose operands are all pure and
+	// total are put in a fixed order (astnorm_gen.go); `x += 1` / `x -= 1` are read as `x++` / `x--` (the spelling the
+	// reference tree uses, so that loops counted by `i += 1` translate like loops counted by `i++`)
+	NormalizeFile(fset, f, NormOpts{InlineConsts: true, SortBool: true, OpAssign: true})
+	incDecForm(f)
+}
+
+// incDecForm rewrites every statement `x += 1` / `x -= 1` (x an identifier or a chain of field selections) as x++ / x--
+func incDecForm(f *ast.File) {
+	conv := func(s ast.Stmt) ast.Stmt {
+		as, ok := s.(*ast.AssignStmt)
+		if !ok || len(as.Lhs) != 1 || len(as.Rhs) != 1 || (as.Tok != token.ADD_ASSIGN && as.Tok != token.SUB_ASSIGN) || !isPureLvalue(as.Lhs[0]) {
+			return s
+		}
+		if bl, ok := as.Rhs[0].(*ast.BasicLit); !ok || bl.Kind != token.INT || bl.Value != "1" {
+			return s
+		}
+		tok := token.INC
+		if as.Tok == token.SUB_ASSIGN {
+			tok = token.DEC
+		}
+		return &ast.IncDecStmt{X: as.Lhs[0], TokPos: as.TokPos, Tok: tok}
+	}
+	list := func(l []ast.Stmt) {
+		for i := range l {
+			l[i] = conv(l[i])
+		}
+	}
+	ast.Inspect(f, func(n ast.Node) bool {
+		switch x := n.(type) {
+		case *ast.BlockStmt:
+			list(x.List)
+		case *ast.CaseClause:
+			list(x.Body)
+		case *ast.CommClause:
+			list(x.Body)
+		case *ast.ForStmt:
+			if x.Init != nil {
+				x.Init = conv(x.Init)
+			}
+			if x.Post != nil {
+				x.Post = conv(x.Post)
+			}
+		case *ast.LabeledStmt:
+			x.Stmt = conv(x.Stmt)
+		}
+		return true
+	})
+}
+
+// applyBind renames the local variables named in sp.Bind (by canonical position) to the names the spec uses
+func bindKey(sp spec) string { return sp.File + ":" + sp.Recv + "." + sp.Func }
+
+func applyBind(fd *ast.FuncDecl, sp spec) {
+	table := sp.Bind
+	if len(table) == 0 {
+		table = bindTables[bindKey(sp)] // bind_gen.go: the names of ALL locals of every translated function, as of the reference tree
+	}
+	if len(table) == 0 {
+		return
+	}
+	want := map[string]string{}
+	tableNames := map[string]bool{}
+	for _, b := range table {
+		if kv := strings.SplitN(b, "=", 2); len(kv) == 2 {
+			tableNames[kv[1]] = true
+		}
+	}
+	for _, b := range table {
+		kv := strings.SplitN(b, "=", 2)
+		if len(kv) != 2 {
+			fail(token.Position{Filename: sp.File}, "spec.Bind entry %q", b)
+		}
+		want[kv[0]] = kv[1]
+	}
+	// The translator resolves variables by NAME, so a renaming must not capture anything. An entry `c=name` is applied
+	// only when NO local of the function is called `name` any more (a maintainer renamed it) and no other identifier of
+	// the function is spelled `name` (a package-level function, a builtin …): giving the fresh name to the variable at
+	// position c is then an alpha-renaming of the Go function — the translation is a faithful translation of the real
+	// code whichever variable sits at c; if it is not the intended one the fragment has an unknown free variable, or the
+	// tie theorem fails. While a local of that name exists the spec is read by name as before (no renaming).
+	sels := map[*ast.Ident]bool{}
+	ast.Inspect(fd, func(n ast.Node) bool {
+		if se, ok := n.(*ast.SelectorExpr); ok {
+			sels[se.Sel] = true
+		}
+		return true
+	})
+	target := map[string]*ast.Object{}
+	ast.Inspect(fd, func(n ast.Node) bool {
+		if id, ok := n.(*ast.Ident); ok && id.Obj != nil && !astnormField[id] {
+			if c, ok := astnormCanon[id.Obj]; ok {
+				if _, ok := want[c]; ok {
+					target[c] = id.Obj
+				}
+			}
+		}
+		return true
+	})
+	// names the function's own locals carry in the working tree
+	localNames := map[string]bool{}
+	ast.Inspect(fd, func(n ast.Node) bool {
+		if id, ok := n.(*ast.Ident); ok && id.Obj != nil && !astnormField[id] {
+			if _, ok := astnormCanon[id.Obj]; ok {
+				localNames[id.Obj.Name] = true
+			}
+		}
+		return true
+	})
+	for c, name := range want {
+		if localNames[name] {
+			// the working tree still has a local of that name: the spec is read by name, as written (no renaming)
+			delete(want, c)
+			continue
+		}
+		o := target[c]
+		if o == nil || tableNames[o.Name] {
+			// nothing at that position, or a variable that carries another name of the table (the positions have
+			// shifted: a local was added or removed): no renaming; the spec is read by name
+			delete(want, c)
+			continue
+		}
+		ast.Inspect(fd, func(n ast.Node) bool {
+			id, ok := n.(*ast.Ident)
+			if !ok || sels[id] || astnormField[id] || id.Name != name || id.Obj == o {
+				return true
+			}
+			fail(token.Position{Filename: sp.File}, "spec.Bind of %s: the variable at canonical position %s is called %s; the name %s the spec has for it is used for something else in the function",
+				sp.Func, c, o.Name, name)
+			return true
+		})
+	}
+	ast.Inspect(fd, func(n ast.Node) bool {
+		if id, ok := n.(*ast.Ident); ok && id.Obj != nil && !astnormField[id] {
+			if c, ok := astnormCanon[id.Obj]; ok {
+				if name, ok := want[c]; ok {
+					id.Name = name
+				}
+			}
+		}
+		return true
+	})
+	for c, name := range want {
+		target[c].Name = name
+	}
+}
+
+// printBinds: see the -dump-binds flag
+func printBinds(repo string) {
+	fset := token.NewFileSet()
+	files := map[string]*ast.File{}
+	seen := map[string]bool{}
+	var keys []string
+	out := map[string][]string{}
+	for _, sp := range specs {
+		k := bindKey(sp)
+		if seen[k] {
+			continue
+		}
+		seen[k] = true
+		f, ok := files[sp.File]
+		if !ok {
+			var err error
+			f, err = parser.ParseFile(fset, filepath.Join(repo, sp.File), nil, 0)
+			if err != nil {
+				fmt.Fprintln(os.Stderr, err)
+				os.Exit(2)
+			}
+			IndexLocals(f)
+			files[sp.File] = f
+		}
+		fd := findFunc(f, sp)
+		if fd == nil {
+			continue
+		}
+		type ent struct {
+			pos  token.Pos
+			text string
+		}
+		var es []ent
+		done := map[*ast.Object]bool{}
+		ast.Inspect(fd, func(n ast.Node) bool {
+			if id, ok := n.(*ast.Ident); ok && id.Obj != nil && !astnormField[id] && !done[id.Obj] {
+				if c, ok := astnormCanon[id.Obj]; ok {
+					done[id.Obj] = true
+					es = append(es, ent{id.Obj.Pos(), c + "=" + id.Obj.Name})
+				}
+			}
+			return true
+		})
+		sort.Slice(es, func(i, j int) bool { return es[i].pos < es[j].pos })
+		for _, e := range es {
+			out[k] = append(out[k], e.text)
+		}
+		keys = append(keys, k)
+	}
+	sort.Strings(keys)
+	fmt.Println("// Code generated by `go2lean -dump-binds -repo <reference tree>`. DO NOT EDIT.")
+	fmt.Println("//")
+	fmt.Println("// The names of the local variables of every translated function in the reference tree, by canonical position")
+	fmt.Println("// (astnorm_gen.go). applyBind uses them to undo a maintainer's renaming of a local before translating, so that")
+	fmt.Println("// the generated Lean text (argument order of loop functions, binder names) does not depend on it.")
+	fmt.Println("package main")
+	fmt.Println()
+	fmt.Println("var bindTables = map[string][]string{")
+	for _, k := range keys {
+		q := make([]string, len(out[k]))
+		for i, e := range out[k] {
+			q[i] = strconv.Quote(e)
+		}
+		fmt.Printf("\t%s: {%s},\n", strconv.Quote(k), strings.Join(q, ", "))
+	}
+	fmt.Println("}")
+}
+
+func printCanon(repo, what string) {
+	parts := strings.SplitN(what, ":", 2)
+	if len(parts) != 2 {
+		fmt.Fprintln(os.Stderr, "go2lean: -canon file.go:Func")
+		os.Exit(2)
+	}
+	fset := token.NewFileSet()
+	f, err := parser.ParseFile(fset, filepath.Join(repo, parts[0]), nil, 0)
+	if err != nil {
+		fmt.Fprintln(os.Stderr, err)
+		os.Exit(2)
+	}
+	IndexLocals(f)
+	for _, d := range f.Decls {
+		if fd, ok := d.(*ast.FuncDecl); ok && fd.Name.Name == parts[1] {
+			withCanon(fd, func() { printer.Fprint(os.Stdout, fset, fd) })
+			fmt.Println()
+		}
+	}
+}
+
 func findFunc(f *ast.File, sp spec) *ast.FuncDecl {
 	for _, d := range f.Decls {
 		fd, ok := d.(*ast.FuncDecl)
@@ -1408,6 +1671,7 @@ func translate(fset *token.FileSet, f *ast.File, sp spec) []genFunc {
 		fmt.Fprintf(os.Stderr, "go2lean: %s: function %s (recv %q) not found\n", sp.File, sp.Func, sp.Recv)
 		os.Exit(2)
 	}
+	applyBind(fd, sp)
 	base := &tr{fset: fset, vars: map[string]Ty{}, outPtr: sp.OutPtr}
 	var params []string
 	if fd.Recv != nil && len(fd.Recv.List[0].Names) == 1 {
@@ -1517,7 +1781,17 @@ func translate(fset *token.FileSet, f *ast.File, sp spec) []genFunc {
 func main() {
 	repo := flag.String("repo", "/repo", "repository root (working tree)")
 	out := flag.String("out", "", "output directory for generated Lean modules")
+	canon := flag.String("canon", "", "debug: print function `file.go:Func` (path relative to the repository) under canonical local names and exit")
+	dumpBinds := flag.Bool("dump-binds", false, "print bind_gen.go (the names of the locals of every translated function in THIS tree, by canonical position) and exit; run it on the reference tree after an intended change of a translated function")
 	flag.Parse()
+	if *canon != "" {
+		printCanon(*repo, *canon)
+		return
+	}
+	if *dumpBinds {
+		printBinds(*repo)
+		return
+	}
 	if *out == "" {
 		fmt.Fprintln(os.Stderr, "go2lean: -out required")
 		os.Exit(2)
@@ -1535,11 +1809,12 @@ func main() {
 		f, ok := files[sp.File]
 		if !ok {
 			var err error
-			f, err = parser.ParseFile(fset, filepath.Join(*repo, sp.File), nil, parser.SkipObjectResolution)
+			f, err = parser.ParseFile(fset, filepath.Join(*repo, sp.File), nil, 0)
 			if err != nil {
 				fmt.Fprintf(os.Stderr, "go2lean: %v\n", err)
 				os.Exit(2)
 			}
+			prepareFile(fset, f)
 			files[sp.File] = f
 		}
 		if _, ok := mods[sp.Module]; !ok && !seenMod[sp.Module] {
